@@ -125,6 +125,24 @@ def run(ctx):
         if ctx.mine(idx) and (not ctx.quick() or not name.endswith("-60") or name.startswith("chain")):
             check_program(ctx, im, text, None, 15, "size-shapes")
             ctx.seen("size_shapes", name)
+    # literal sweep: every hostile string of the literal pool as salt + operand + tuple member + group label at once; the
+    # generated text goes through black, which must not touch the contents of string literals
+    from pyabv.gen import literals as L
+
+    sweep = [x for x in L.TRICKY_STRINGS if L.expressible(x)] + [L.random_string(rnd, 14) for _ in range(ctx.n(30, 3000))]
+    for si, sv in enumerate(sweep):
+        idx += 1
+        if si < len(L.TRICKY_STRINGS) and not ctx.mine(idx):
+            continue
+        S = L.render_lit(L.str_lit(sv))
+        text = (f'def lit {{ salt: {S} splitters: u if f == {S} {{ return {S} weighted 1, "b" weighted 1 }} else if f in ({S}, "m") '
+                f'{{ return "c" weighted 1 }} else {{ return "d" weighted 2, {S} weighted 1 }} }}')
+        gp = Inferred(ref_parse(text)[1], text) if ref_parse(text)[0] == "ok" else None
+        if gp is None:
+            ctx.count("harness/reference-did-not-accept")
+            continue
+        gp.lits["f"] = [sv, sv + "x", sv.replace("    ", "\t"), sv.replace("\t", "    ")]
+        check_program(ctx, im, text, gp, 12, "literal-sweep")
     n = ctx.n(120, 12000)
     profiles = [
         Profile(),
